@@ -27,8 +27,59 @@ def innermost_frame(exc) -> str:
     return f"{f.filename.replace(chr(92), '/').split('/rtflite/')[-1]}:{f.name}"
 
 
+def _strip_colours(spec):
+    return {k: v for k, v in spec.items() if "color" not in k} if isinstance(spec, dict) else spec
+
+
+def recolour_first(recipe):
+    """The document as it was at its first rendering: the components named in recipe['recolour']['strip'] carry no colours yet."""
+    import copy
+    first = copy.deepcopy({k: v for k, v in recipe.items() if k != "recolour"})
+    for comp in recipe["recolour"]["strip"]:
+        if comp in ("body", "headers"):
+            for sec in first.get("sections", []):
+                if comp == "body":
+                    sec["body"] = _strip_colours(sec.get("body", {}))
+                elif isinstance(sec.get("headers"), list):
+                    sec["headers"] = [_strip_colours(h) for h in sec["headers"]]
+        elif first.get(comp) is not None:
+            first[comp] = _strip_colours(first[comp])
+    return first
+
+
+_COMP_ATTR = {"title": "rtf_title", "subline": "rtf_subline", "footnote": "rtf_footnote", "source": "rtf_source",
+              "page_header": "rtf_page_header", "page_footer": "rtf_page_footer", "body": "rtf_body", "headers": "rtf_column_header"}
+
+
+def _flat(v):
+    if isinstance(v, (list, tuple)):
+        for x in v:
+            yield from _flat(x)
+    elif v is not None:
+        yield v
+
+
+def recolour_in_place(doc, fresh_doc, strip):
+    """The user gives components of a live (already rendered) document their colours IN PLACE: every colour attribute of the
+    named components is set to the (normalised) value the same component has in a freshly built document of the final
+    recipe.  Returns False when the two documents do not have the same component structure (nothing is changed then)."""
+    pairs = []
+    for comp in strip:
+        a, b = list(_flat(getattr(doc, _COMP_ATTR[comp], None))), list(_flat(getattr(fresh_doc, _COMP_ATTR[comp], None)))
+        if len(a) != len(b) or any(type(x) is not type(y) for x, y in zip(a, b)):
+            return False
+        pairs += list(zip(a, b))
+    for mine, theirs in pairs:
+        for name in type(theirs).model_fields:
+            if "color" in name:
+                setattr(mine, name, getattr(theirs, name))
+    return True
+
+
 def run_recipe(recipe, parse=True, workdir=None) -> Outcome:
     out = Outcome()
+    if recipe.get("recolour"):
+        return _run_recoloured(recipe, parse, workdir, out)
     first_layout = recipe.get("relayout")
     try:
         if first_layout is not None:
@@ -48,6 +99,37 @@ def run_recipe(recipe, parse=True, workdir=None) -> Outcome:
             import rtflite as rtf
             out.built.doc.rtf_encode()
             out.built.doc.rtf_page = rtf.RTFPage(**R._kw(recipe.get("page") or {}))
+        out.rtf = out.built.doc.rtf_encode()
+    except Exception as e:
+        out.encode_error = (type(e).__name__, innermost_frame(e), str(e)[:200])
+        out.encode_exc = e
+        return out
+    if parse and isinstance(out.rtf, str):
+        out.doc = read(out.rtf)
+    return out
+
+
+def _run_recoloured(recipe, parse, workdir, out) -> Outcome:
+    """History: the document is built WITHOUT the colours of some components and rendered; the components then get their
+    colours in place (mode 'in_place'), or a variant is derived with model_copy(update=...) (mode 'model_copy'), and the
+    document is rendered again.  The oracles look at the second rendering, whose value is the recipe."""
+    final = {k: v for k, v in recipe.items() if k != "recolour"}
+    try:
+        out.built = R.build(recolour_first(recipe), workdir)
+        fresh = R.build(final, workdir)
+        out.built.recipe = recipe
+    except Exception as e:
+        out.build_error = f"{type(e).__name__}: {str(e)[:300]} @ {innermost_frame(e)}"
+        return out
+    try:
+        out.built.doc.rtf_encode()
+        strip = recipe["recolour"]["strip"]
+        if recipe["recolour"].get("mode") == "model_copy":
+            upd = {_COMP_ATTR[c]: getattr(fresh.doc, _COMP_ATTR[c]) for c in strip}
+            out.built.doc = out.built.doc.model_copy(update=upd)
+        elif not recolour_in_place(out.built.doc, fresh.doc, strip):
+            out.build_error = "recolour: component structure of the first and the final document differs"
+            return out
         out.rtf = out.built.doc.rtf_encode()
     except Exception as e:
         out.encode_error = (type(e).__name__, innermost_frame(e), str(e)[:200])
